@@ -126,3 +126,63 @@ package retriever
 //@   nosafety
 //@   loop 0
 //@     invariant cleared: fragmentsVerified[options.InputDir] && targetsEmpty[db]
+
+// C19 kernel: the publishers follow the write-temp-then-rename discipline (/verif/specs/fsdiscipline.gocl): the
+// checkpoint and the manifest are written under their ".tmp" name and reach their final name only through os.Rename
+// of the completely written temporary file; when the rename fails the temporary file is removed and the final name is
+// left as it was.
+
+//@ func writeDumpCheckpoint(outputDir string, value dumpCheckpoint) error
+//@   modifies fileComplete[joinPath(outputDir, dumpCheckpointFileName + ".tmp")], fileComplete[joinPath(outputDir, dumpCheckpointFileName)]
+//@   nosafety
+//@   ensures published: result == nil ==> fileComplete[joinPath(outputDir, dumpCheckpointFileName)]
+//@   ensures noTempLeftAfterRenameError: !fileComplete[joinPath(outputDir, dumpCheckpointFileName + ".tmp")] || result != nil
+
+//@ func writeManifest(outputDir string, value Manifest) error
+//@   modifies fileComplete[joinPath(outputDir, manifestFileName + ".tmp")], fileComplete[joinPath(outputDir, manifestFileName)]
+//@   nosafety
+//@   ensures published: result == nil ==> fileComplete[joinPath(outputDir, manifestFileName)]
+//@   ensures untouchedOnError: result != nil ==> fileComplete[joinPath(outputDir, manifestFileName)] == old(fileComplete[joinPath(outputDir, manifestFileName)])
+//@ func (s Manifest) validate() error
+//@   trusted
+//@   nomod
+// the crash-point hook is a no-op in the real build (verif_hook_off.go); the verification harness only uses it to stop
+// the process
+//@ func verifCrashPoint(point string)
+//@   trusted
+//@   nomod
+
+// Fragment files: the writer object ties its file to the temporary name of its path (the three fields are stored
+// only by the constructor - a derived structural obligation over the package), Close publishes the temporary file
+// under the final name only after the compressor and the file were closed without error, and removes the temporary
+// file on every error path.
+//@ pure func fragmentWriterWF(s *compressedJSONLinesWriter) bool {
+//@   s.file != nil && s.compressor != nil && s.hasher != nil && s.compressedCounter != nil && s.uncompressedCounter != nil
+//@   && s.tempPath == s.path + ".tmp" && s.file.name == s.tempPath
+//@ }
+
+//@ func newCompressedJSONLinesWriter(path string, codec CompressionCodec, zstdLevel int) (*compressedJSONLinesWriter, error)
+//@   modifies fileComplete[path + ".tmp"]
+//@   nosafety
+//@   ensures fresh: result.1 == nil ==> result.0 != nil && fresh(result.0) && result.0.path == path && !result.0.closed
+//@   ensures parts: result.1 == nil ==> result.0.file != nil && result.0.compressor != nil && result.0.hasher != nil && result.0.compressedCounter != nil && result.0.uncompressedCounter != nil
+//@   ensures names: result.1 == nil ==> result.0.tempPath == path + ".tmp" && result.0.file.name == result.0.tempPath
+//@   ensures notPublished: result.1 == nil ==> !fileComplete[path + ".tmp"]
+//@ func newCompressionWriter(writer io.Writer, codec CompressionCodec, zstdLevel int) (io.WriteCloser, error)
+//@   trusted
+//@   nomod
+//@   ensures result.1 == nil ==> result.0 != nil
+
+//@ func (s *compressedJSONLinesWriter) Close() (FileManifest, error)
+//@   requires s != nil && fragmentWriterWF(s)
+//@   modifies s.closed, fileComplete[s.tempPath], fileComplete[s.path]
+//@   nosafety
+//@   ensures published: result.1 == nil ==> fileComplete[s.path] && !fileComplete[s.tempPath]
+//@   ensures notPublishedOnError: result.1 != nil && !old(s.closed) ==> fileComplete[s.path] == old(fileComplete[s.path]) && !fileComplete[s.tempPath]
+
+//@ func (s *compressedJSONLinesWriter) Abort()
+//@   requires s != nil && fragmentWriterWF(s)
+//@   modifies s.closed, fileComplete[s.tempPath]
+//@   nosafety
+//@   ensures neverPublishes: fileComplete[s.path] == old(fileComplete[s.path])
+//@   ensures tempRemoved: !old(s.closed) ==> !fileComplete[s.tempPath]
